@@ -99,6 +99,58 @@ func ackLeased(sub string, kind string, seconds int32, onlyFirst bool) scriptSte
 
 func subStep(q *SubReq) scriptStep { return opStep(&Op{Kind: "CreateSub", Sub: q}) }
 
+// acknowledge exactly n of the leased deliveries of a subscription (skipping the first
+// [skip] in id order) in one request
+func ackLeasedN(sub string, skip, n int) scriptStep {
+	return func(g *Gen, d *Dump, vnow int64) Action {
+		s := d.subByName(sub)
+		var ids []string
+		seen := 0
+		for _, x := range d.Dels {
+			if s != nil && x.Sub == s.ID && x.Completed == nil && x.Attempts > 0 {
+				seen++
+				if seen <= skip {
+					continue
+				}
+				ids = append(ids, x.ID.String())
+				if len(ids) == n {
+					break
+				}
+			}
+		}
+		return Action{Op: &Op{Kind: "Ack", Name: sub, AckIDs: ids}}
+	}
+}
+
+// bulkScript: requests and tables far larger than the random histories produce -- batches of
+// 100 messages, pulls of up to 1000, Acknowledge calls with exactly 500 / 499 / the rest of
+// the ids, a snapshot whose acknowledged-message list exceeds 1000 entries (when n allows),
+// a seek to it
+func bulkScript(n int) []scriptStep {
+	s := []scriptStep{
+		opStep(&Op{Kind: "CreateTopic", Name: sT0}),
+		subStep(&SubReq{Name: sS0, Topic: sT0}),
+	}
+	for i := 0; i < n; i += 100 {
+		k := 100
+		if n-i < k {
+			k = n - i
+		}
+		keys := make([]string, k)
+		s = append(s, pubStep(sT0, keys...))
+	}
+	s = append(s, pullStep(sS0, 1000), pullStep(sS0, 1000))
+	// leave the first delivery unacknowledged; acknowledge the rest in odd-sized requests
+	s = append(s, ackLeasedN(sS0, 1, 500), ackLeasedN(sS0, 1, 499), ackLeasedN(sS0, 1, 100000))
+	s = append(s,
+		opStep(&Op{Kind: "CreateSnap", Name: "projects/p/snapshots/n0", Name2: sS0}),
+		pubStep(sT0, "", "", ""), pullStep(sS0, 1000), ackLeasedN(sS0, 0, 100000),
+		opStep(&Op{Kind: "SeekSnap", Name: sS0, Name2: "projects/p/snapshots/n0"}),
+		pullStep(sS0, 1000),
+		ackLeased(sS0, "ModAck", 0, false), pullStep(sS0, 1000))
+	return s
+}
+
 func dl(topic string, max int32) *struct {
 	Topic string
 	Max   int32
@@ -155,6 +207,30 @@ var genScenarios = map[string]func(g *Gen) []scriptStep{
 				opStep(&Op{Kind: "Job", Job: "DeadLetterSweep", MaxN: 100}))
 		}
 		return append(s, pullStep(sS1, int32(1+g.r.Intn(3))), ackLeased(sS1, "Ack", 0, true), pullStep(sS1, 10))
+	},
+	// filtered subscriptions on the dead-letter topic, messages with attributes (C06, C07, C02):
+	// the forward must route by the message's own attributes, with the target's own retention
+	"dl-filtered-target": func(g *Gen) []scriptStep {
+		shortTTL := 2 * time.Minute
+		return []scriptStep{
+			opStep(&Op{Kind: "CreateTopic", Name: sT0}), opStep(&Op{Kind: "CreateTopic", Name: sT1}),
+			subStep(&SubReq{Name: sS0, Topic: sT0, DL: dl(sT1, 1), Retry: retry(time.Second), MsgTTL: dptr(time.Hour)}),
+			subStep(&SubReq{Name: sS1, Topic: sT1, Filter: `attributes.x = "v"`, MsgTTL: &shortTTL}),
+			subStep(&SubReq{Name: sS2, Topic: sT1, Filter: `NOT attributes:x`}),
+			opStep(&Op{Kind: "Publish", Name: sT0, Msgs: []PubMsg{{Data: []byte(`{"n":1}`), Attrs: map[string]string{"x": "v"}}, {Data: []byte(`{"n":2}`), Attrs: map[string]string{"y": "w"}}, {Data: []byte(`{"n":3}`)}}}),
+			pullStep(sS0, 10),
+			advStep(5 * time.Minute), // longer than the dead-letter subscription's retention
+			func(g *Gen, d *Dump, vnow int64) Action {
+				switch g.r.Intn(3) {
+				case 0:
+					return Action{Op: &Op{Kind: "Pull", Name: sS0, Max: 10}}
+				case 1:
+					return ackLeased(sS0, "Nack", 0, false)(g, d, vnow)
+				}
+				return Action{Op: &Op{Kind: "Job", Job: "DeadLetterSweep", MaxN: 100}}
+			},
+			pullStep(sS1, 10), pullStep(sS2, 10),
+		}
 	},
 	// a seek that revives acknowledged messages late in their retention (C13, C14)
 	"seek-revive-late": func(g *Gen) []scriptStep {
@@ -236,7 +312,7 @@ var genScenarios = map[string]func(g *Gen) []scriptStep{
 	},
 }
 
-var scenarioNames = []string{"dl-deleted-topic", "dl-ordered-target", "seek-revive-late", "idle-expired-live", "filter-replaced", "ordered-chain", "lease-changes"}
+var scenarioNames = []string{"dl-deleted-topic", "dl-ordered-target", "dl-filtered-target", "seek-revive-late", "idle-expired-live", "filter-replaced", "ordered-chain", "lease-changes"}
 
 // scenariosFor lists the templates a generator profile may start with
 func scenariosFor(profile string) []string {
@@ -247,7 +323,7 @@ func scenariosFor(profile string) []string {
 		return []string{"seek-revive-late", "ordered-chain"}
 	case "c15":
 		// no reviving seeks in the paired histories
-		return []string{"dl-deleted-topic", "dl-ordered-target", "idle-expired-live", "filter-replaced"}
+		return []string{"dl-deleted-topic", "dl-ordered-target", "dl-filtered-target", "idle-expired-live", "filter-replaced"}
 	}
 	return nil
 }
